@@ -61,28 +61,86 @@ theorem C10_anyfile_exact (exts : List String) (look : String → Ent) (mtime : 
   · simp [scanFiles_fresh]
   · simp
 
-/-- **C10_pyfile_exact_partial**: the same for the Python searcher's source suffixes, provided no
-byte-code file with a usable header sits beside the module (that case is `C10_pyfile_pyc`). -/
+theorem scanPyc_fresh (look : String → Ent) (mtime : Int) (bc : List String) :
+    scanPyc look mtime bc = true ↔ ∃ sfx ∈ bc, ∃ t p, look sfx = .file t (some p) ∧ p ≥ mtime := by
+  induction bc with
+  | nil => simp [scanPyc]
+  | cons sfx rest ih =>
+    unfold scanPyc
+    cases hl : look sfx with
+    | file t h =>
+      cases h with
+      | none =>
+        simp only [ih, List.mem_cons, exists_eq_or_imp]
+        constructor
+        · intro hh; exact Or.inr hh
+        · rintro (⟨t', p', h1, _⟩ | hh)
+          · rw [hl] at h1; cases h1
+          · exact hh
+      | some p =>
+        by_cases hp : p ≥ mtime
+        · simp only [hp, if_true, true_iff]
+          exact ⟨sfx, by simp, t, p, hl, hp⟩
+        · simp only [hp, if_false, ih, List.mem_cons, exists_eq_or_imp]
+          constructor
+          · intro hh; exact Or.inr hh
+          · rintro (⟨t', p', h1, h2⟩ | hh)
+            · rw [hl] at h1; injection h1 with _ h12; injection h12 with h12; subst h12; exact absurd h2 hp
+            · exact hh
+    | absent =>
+      simp only [ih, List.mem_cons, exists_eq_or_imp]
+      constructor
+      · intro hh; exact Or.inr hh
+      · rintro (⟨t', p', h1, _⟩ | hh)
+        · rw [hl] at h1; cases h1
+        · exact hh
+    | dir =>
+      simp only [ih, List.mem_cons, exists_eq_or_imp]
+      constructor
+      · intro hh; exact Or.inr hh
+      · rintro (⟨t', p', h1, _⟩ | hh)
+        · rw [hl] at h1; cases h1
+        · exact hh
+
+/-- **C10_pyfile_exact**: the Python searcher answers "up to date" exactly when it is not rebuilding and either some
+byte-code file carries a timestamp (behind the PEP 552 flags word; files with a foreign magic number, hash-based or
+cut-off ones carry none) that is not older than the MIB, or some source-suffix file is a regular file not older than
+the MIB - for every directory content, suffix lists and times.  An older file of either kind, a directory, a file
+without a usable header never counts for or against. -/
+theorem C10_pyfile_exact (bytecode source : List String) (look : String → Ent) (mtime : Int) (rebuild : Bool) :
+    pyFile bytecode source look mtime rebuild = .notModified ↔
+      rebuild = false ∧ ((∃ sfx ∈ bytecode, ∃ t p, look sfx = .file t (some p) ∧ p ≥ mtime) ∨
+                         (∃ sfx ∈ source, ∃ t h, look sfx = .file t h ∧ t ≥ mtime)) := by
+  unfold pyFile
+  cases rebuild
+  · simp only [Bool.false_eq_true, if_false, true_and]
+    by_cases hb : scanPyc look mtime bytecode = true
+    · simp only [hb, if_true, true_iff]
+      exact Or.inl ((scanPyc_fresh look mtime bytecode).mp hb)
+    · have hb' : scanPyc look mtime bytecode = false := by simpa using hb
+      rw [hb']
+      simp only [Bool.false_eq_true, if_false, scanFiles_fresh]
+      constructor
+      · intro h; exact Or.inr h
+      · rintro (h | h)
+        · exact absurd ((scanPyc_fresh look mtime bytecode).mpr h) hb
+        · exact h
+  · simp
+
+/-- **C10_pyfile_exact_partial** (kept under its old name): with no byte-code file that carries a timestamp, the source
+suffixes alone decide. -/
 theorem C10_pyfile_exact_partial (bytecode source : List String) (look : String → Ent) (mtime : Int)
     (rebuild : Bool) (hpyc : ∀ sfx ∈ bytecode, ∀ t h, look sfx = .file t h → h = none) :
     pyFile bytecode source look mtime rebuild = .notModified ↔
       rebuild = false ∧ ∃ sfx ∈ source, ∃ t h, look sfx = .file t h ∧ t ≥ mtime := by
-  have hscan : scanPyc look mtime bytecode = none := by
-    induction bytecode with
-    | nil => rfl
-    | cons sfx rest ih =>
-      unfold scanPyc
-      cases hl : look sfx with
-      | file t h =>
-        have := hpyc sfx (by simp) t h hl
-        subst this
-        exact ih (fun s hs => hpyc s (by simp [hs]))
-      | absent => exact ih (fun s hs => hpyc s (by simp [hs]))
-      | dir => exact ih (fun s hs => hpyc s (by simp [hs]))
-  unfold pyFile
-  cases rebuild
-  · simp [hscan, scanFiles_fresh]
-  · simp
+  rw [C10_pyfile_exact]
+  constructor
+  · rintro ⟨hr, h | h⟩
+    · obtain ⟨sfx, hm, t, p, hl, _⟩ := h
+      have := hpyc sfx hm t (some p) hl
+      cases this
+    · exact ⟨hr, h⟩
+  · rintro ⟨hr, h⟩; exact ⟨hr, Or.inr h⟩
 
 /-- **C10_rebuild**: with `rebuild` the file searchers never answer "up to date" … -/
 theorem C10_rebuild_files (exts bc src : List String) (look : String → Ent) (mtime : Int) :
@@ -93,36 +151,22 @@ theorem C10_stub (names : List String) (name : String) (mtime : Int) (rebuild : 
     stub names name mtime rebuild = .notModified ↔ name ∈ names := by
   unfold stub; split <;> simp_all
 
-/-- **C10_pyfile_pyc**: the first byte-code file with a usable header decides by the timestamp written inside it
-(`hdr`: behind the PEP 552 flags word; files with a foreign magic number, hash-based or cut-off ones have none and are
-passed over): up to date exactly when that timestamp is not older than the source. -/
-theorem C10_pyfile_pyc (source pre post : List String) (sfx : String) (look : String → Ent) (mtime t p : Int)
-    (hpre : ∀ s ∈ pre, ∀ t h, look s = .file t h → h = none) (hl : look sfx = .file t (some p)) :
-    pyFile (pre ++ sfx :: post) source look mtime false = (if p ≥ mtime then .notModified else .notFound) := by
-  have hscan : scanPyc look mtime (pre ++ sfx :: post) = some (if p ≥ mtime then .notModified else .notFound) := by
-    induction pre with
-    | nil => simp [scanPyc, hl]
-    | cons s rest ih =>
-      simp only [List.cons_append]
-      unfold scanPyc
-      cases hs : look s with
-      | file t' h =>
-        have := hpre s (by simp) t' h hs
-        subst this
-        exact ih (fun x hx => hpre x (by simp [hx]))
-      | absent => exact ih (fun x hx => hpre x (by simp [hx]))
-      | dir => exact ih (fun x hx => hpre x (by simp [hx]))
-  unfold pyFile
-  simp [hscan]
+/-- **C10_pyfile_pyc**: a byte-code file whose embedded timestamp is not older than the MIB answers "up to date",
+wherever it stands among the byte-code suffixes and whatever else lies beside it. -/
+theorem C10_pyfile_pyc (bytecode source : List String) (sfx : String) (look : String → Ent) (mtime t p : Int)
+    (hm : sfx ∈ bytecode) (hl : look sfx = .file t (some p)) (hp : p ≥ mtime) :
+    pyFile bytecode source look mtime false = .notModified :=
+  (C10_pyfile_exact bytecode source look mtime false).mpr ⟨rfl, Or.inl ⟨sfx, hm, t, p, hl, hp⟩⟩
 
-/-- a stale byte-code file decides even when an up-to-date source module lies beside it (the searcher stops at the
-first usable header); with the timestamp read from the right place this needs a byte-code file that really is older
-than the MIB -/
-theorem C10_stale_pyc_decides :
+/-- **C10_stale_pyc_passed_over**: a byte-code file older than the MIB does not hide an up-to-date source file beside
+it (before the repair of the loop it did: the searcher stopped at the first usable header). -/
+theorem C10_stale_pyc_passed_over :
     pyFile [".pyc"] [".py"] (fun s => if s = ".pyc" then .file 100 (some 0) else if s = ".py" then .file 100 none else .absent)
-      50 false = .notFound := by decide
+      50 false = .notModified := by decide
 
 example : pyFile [".pyc"] [".py"] (fun s => if s = ".py" then .file 50 none else .dir) 50 false = .notModified := by
+  decide
+example : pyFile [".pyc"] [".py"] (fun s => if s = ".pyc" then .file 100 (some 0) else .absent) 50 false = .notFound := by
   decide
 
 end Pysmi.Searcher
